@@ -252,6 +252,22 @@ def build_steps(rng, recs, delim, queries, slot=0, p_incremental=0.35):
     from .common import q as _q
     header = [_q(slot, "records"), _q(slot, "delimiter")]
     d = [ord(ch) for ch in delim]
+    # a rejected call in the history: a new record whose *later* names clash with an existing record (no merge).
+    # It raises ValueError and must leave no trace: the new names stay unknown to every query.
+    if recs and rng.random() < 0.3:
+        t = rng.choice(recs)
+        newp, newu = "rj" + word(rng, 1, 1, syms=["a", "b", "1"]), "http://rejected.example/" + word(rng, 1, 1, syms=["a", "b"]) + "/"
+        side = rng.random()
+        ps = [uncps(t["p"])] if side < 0.5 else []
+        us = [] if side < 0.5 else [uncps(t["u"])]
+        rej = [{"op": "add_prefix", "c": slot, "p": cps(newp), "u": cps(newu), "ps": [cps(x) for x in ["rjsyn"] + ps],
+                "us": [cps(x) for x in [newu + "syn/"] + us]}]
+        queries = list(queries) + [_q(slot, "standardize_prefix", newp), _q(slot, "expand_pair", newp, "1"),
+                                   _q(slot, "expand_pair", "rjsyn", "1"), _q(slot, "expand", newp + delim + "1"),
+                                   _q(slot, "standardize_curie", "rjsyn" + delim + "1"), _q(slot, "is_curie", newp + delim + "1"),
+                                   _q(slot, "compress", newu + "1"), _q(slot, "standardize_uri", newu + "syn/1"),
+                                   _q(slot, "parse_uri", newu + "1"), _q(slot, "is_uri", newu + "1")]
+        header = rej + header
     if not recs or (len(recs) < 2 and not (recs[0]["ps"] or recs[0]["us"])) or rng.random() >= p_incremental:
         return [{"op": "init", "dst": slot, "records": recs, "delim": d}] + header + queries, "init"
     thinned, later = split_history(rng, recs)
@@ -274,7 +290,7 @@ def build_steps(rng, recs, delim, queries, slot=0, p_incremental=0.35):
 
 def observe_steps(slot, probes_p=(), probes_u=()):
     from .common import q as _q
-    steps = [_q(slot, "records"), _q(slot, "get_prefixes", s=True), _q(slot, "get_uri_prefixes", s=True),
+    steps = [_q(slot, "records"), _q(slot, "delimiter"), _q(slot, "get_prefixes", s=True), _q(slot, "get_uri_prefixes", s=True),
              _q(slot, "prefix_map"), _q(slot, "reverse_prefix_map")]
     for p in probes_p:
         steps += [_q(slot, "expand_pair", p, "1"), _q(slot, "standardize_prefix", p)]
